@@ -665,8 +665,26 @@ def pre_build(ctx):
     py2lean.pre_build(ctx, ("wasserstein",))
 
 
+
+DEFAULT_FILTER_STMT = 'persim.wasserstein(np.array([[0.0, 1.0], [0.0, np.inf]]), np.array([[0.0, 2.0]]))'
+
+
+def default_filter_probe(ctx):
+    """[T] the clause `dropped / handled WITH A WARNING` as the caller experiences it: in a fresh interpreter under Python's
+    own warning filters (our other streams record with simplefilter("always"), which would hide a filter that `import
+    persim` installs), the call must deliver a warning"""
+    res = common.warnings_under_default_filters(DEFAULT_FILTER_STMT)
+    if res is None:
+        ctx.count("default_filter_probe:not_run")
+        return
+    ctx.test("warning_reaches_caller_under_default_filters", res[0] >= 1)
+    if res[0] < 1:
+        ctx.violation("no warning reaches the caller under the interpreter's default warning filters for: %s" % DEFAULT_FILTER_STMT,
+                      {"op": "default_filter_probe", "stmt": DEFAULT_FILTER_STMT}, found_input=True)
+
 def run(ctx):
     py2lean.report_broken(ctx, PROP_FILES)
+    default_filter_probe(ctx)
     ctx.extra["core_theorems"] = CORE_THEOREMS
     cases = [dict(c) for c in CORPUS]
     digest = common.source_digest(ANCHOR, ["wasserstein"])
@@ -886,6 +904,10 @@ def _parse_dgm(d):
 
 
 def replay(ctx, rep):
+    if rep["case"].get("op") == "default_filter_probe":
+        res = common.warnings_under_default_filters(rep["case"]["stmt"])
+        print("warnings delivered under default filters:", res)
+        return res is None or res[0] >= 1
     c = rep["case"]
     if "input" in c:
         c = c["input"]
